@@ -154,6 +154,30 @@ class Run:
             return False
         return True
 
+    def require(self, construct: str, found: int, what: str, *, fi=None, pred=None, where: str = '', minimum: int = 1) -> bool:
+        """A required element of an existing function.  Present: fine.  Absent
+        from the function but matched by `pred` in a package function it calls:
+        INCONCLUSIVE (moved into a helper - unknown idiom).  Absent everywhere:
+        VIOLATION `missing:<what>` (the absence itself is the offending construct)."""
+        if found >= minimum:
+            return True
+        if fi is not None and pred is not None:
+            from .calls import callees_of
+
+            for cal in callees_of(self.repo, fi):
+                for n in __import__('ast').walk(cal.node):
+                    try:
+                        hit = pred(n)
+                    except Exception:
+                        hit = False
+                    if hit:
+                        self.inconclusive(construct, f'{what}: not found in {fi.qualname} but a match exists in its callee '
+                                                     f'{cal.qualname} (element moved into a helper: idiom not modelled)')
+                        return False
+        self.violation(construct, f'missing:{what}', f'required element missing: {what} (found {found}, need {minimum}; '
+                       f'not in the function nor in any package function it calls)', where=where or (fi.where if fi else ''))
+        return False
+
     def check(self, cond: bool, construct: str, key: str, what_ok: str, what_bad: str, **kw) -> bool:
         if cond:
             self.ok(construct, what_ok, detail=kw.get('detail'))
